@@ -3,6 +3,8 @@ package main
 import (
 	"encoding/json"
 	"fmt"
+	"os"
+	"time"
 
 	"github.com/ohler55/slip"
 	"github.com/ohler55/slip/pp"
@@ -28,8 +30,31 @@ func c19lf(args []string) {
 			Obj json.RawMessage `json:"obj"`
 		}
 		_ = json.Unmarshal(line, &raw)
-		obj := c03Obj(st.Obj)
-		orig := c03Project(obj)
+		var call struct {
+			Call string `json:"call"`
+		}
+		_ = json.Unmarshal(line, &call)
+		var obj slip.Object
+		var orig h.V
+		if call.Call != "" {
+			// a function call object: the text read and compiled; what stands for the object is the value of evaluating it (the
+			// rebuilt call has to give the same), the obj field names the kind for the report
+			raw.Obj = json.RawMessage(`{"k":"call"}`)
+			o := h.Try(func() slip.Object {
+				s0 := slip.NewScope()
+				code := slip.ReadString(call.Call, s0)
+				code.Compile()
+				obj = code[0]
+				return s0.Eval(slip.ReadString(call.Call, s0)[0], 0)
+			})
+			if !o.OK() {
+				panic("call " + call.Call + ": " + o.Msg)
+			}
+			orig = c03Project(o.Val)
+		} else {
+			obj = c03Obj(st.Obj)
+			orig = c03Project(obj)
+		}
 		lf, ok := obj.(slip.LoadFormer)
 		if !ok {
 			out.Emit(h.V{"id": st.ID, "obj": raw.Obj, "orig": orig, "margin": 0, "count": 1, "st": "no load form", "text": "", "back": h.V{"k": "none"}})
@@ -61,17 +86,33 @@ func c19lf(args []string) {
 			if status == "ok" {
 				// as sliptest.LoadForm does: the text is read; a list is a form to evaluate, anything else is the object
 				s2 := slip.NewScope()
-				r := h.Try(func() slip.Object {
-					code := slip.ReadString(text, s2)
-					if len(code) != 1 {
-						panic(fmt.Sprintf("%d forms in the text", len(code)))
+				// (an evaluation that does not come back within 20 s is reported and the worker ends: the goroutine cannot be stopped)
+				done := make(chan h.Outcome, 1)
+				go func() {
+					done <- h.Try(func() slip.Object {
+						code := slip.ReadString(text, s2)
+						if len(code) != 1 {
+							panic(fmt.Sprintf("%d forms in the text", len(code)))
+						}
+						switch code[0].(type) {
+						case slip.List, slip.Funky:
+							return s2.Eval(code[0], 0)
+						}
+						return code[0]
+					})
+				}()
+				var r h.Outcome
+				select {
+				case r = <-done:
+				case <-time.After(20 * time.Second):
+					ev["st"] = "evaluating the load form: no answer within 20 s"
+					events = append(events, ev)
+					for _, e := range events {
+						out.Emit(e)
 					}
-					switch code[0].(type) {
-					case slip.List, slip.Funky:
-						return s2.Eval(code[0], 0)
-					}
-					return code[0]
-				})
+					out.Flush()
+					os.Exit(0)
+				}
 				if r.OK() {
 					ev["back"] = c03Project(r.Val)
 				} else {
